@@ -393,6 +393,11 @@ func ruleValidatePass(p *Program, r *Result) map[string]*ssa.Function {
 					continue
 				}
 				for _, rv := range returnedValues(fn, ret, len(ret.Results)-1) {
+					if rv == ssa.Value(vc) {
+						// `return x.Validate()`: nil is returned exactly when validation passed
+						nAcc++
+						continue
+					}
 					if !isNilConst(rv) {
 						continue
 					}
